@@ -4,6 +4,10 @@
   Model/Wire.lean that oracle_c09 executes and the harness go/cmd/c09 compares with btc.NewTx & co.
 -/
 import GocoinV.Proofs.C09
+import GocoinV.Proofs.C09WF
+import GocoinV.Proofs.C09Size
+import GocoinV.Proofs.C09Alloc
+import GocoinV.Proofs.C09Block
 namespace GocoinV.Props.C09
 open GocoinV GocoinV.Wire GocoinV.CompactSize
 
@@ -270,17 +274,222 @@ theorem fixed_refuses_F4_witnesses :
     (decodeTx witCanonical).isSome = true :=
   fixed_refuses_witnesses
 
--- OPEN: alloc_bounded — `∀ bs, allocated (NewTx bs) ≤ c·|bs| + c'` for REJECTED inputs as well. The model carries no
---   allocation counter; what is proved is the guard every `make` sits behind
---   (`length_fields_canonical_and_bounded`: the count is ≤ the bytes left) and, for accepted inputs, that all
---   elements lie inside the consumed bytes (`decode_reencode`). The byte-level bound is measured on the real code
---   by the harness (child process with a 3 GiB address-space limit; runtime.MemStats delta ≤ 64·len + 8192).
--- OPEN: txsize_spec — `decodeTx bs = some (tx, n) → txSize bs = n` and `txSize bs ≤ bs.length`. `Wire.txSize`
---   is compared with btc.TxSize on every harness case and the predicate is evaluated on the real code; no Lean proof yet.
--- OPEN: accepts_iff_core — exact equality with Bitcoin Core's accept set. `accepted_iff_serialisation` gives it for
---   well-formed transactions (≥ 1 input). The decoder additionally accepts zero-input transactions in legacy form whose
---   output count byte is not 01 (Core: "unknown optional data" for 02…ff); such a transaction re-encodes identically
---   (`decode_reencode` covers it) and is refused by CheckTransaction. Not repaired (documented deviation).
--- OPEN: merkle — `Block.GetMerkle` / `MerkleRootMatch` are not in the model.
+/-- **decode_wf.** Every transaction `btc.NewTx` returns is well-formed: fields in range, one witness stack per
+    input with at least one non-empty stack, and no outputs when there are no inputs. -/
+theorem decode_wf (bs : Bytes) (tx : Tx) (n : Nat) (h : decodeTx bs = some (tx, n)) : tx.WF := by
+  unfold decodeTx at h
+  cases hd : decodeTxFull bs with
+  | none => simp [hd] at h
+  | some d =>
+    simp only [hd, Option.map_some, Option.some.injEq, Prod.mk.injEq] at h
+    obtain ⟨rfl, rfl⟩ := h
+    exact decodeTxFull_wf hd
+
+/-- **accepts_iff_spec.** The accept set of `btc.NewTx`, exactly: `bs` decodes to `(tx, n)` iff `tx` is
+    well-formed, `bs` starts with the BIP144 serialisation of `tx` and `n` is its length. (`Tx.WF` is Bitcoin's
+    deserialiser's image: ranges, non-superfluous witness, no "unknown optional data".) -/
+theorem accepts_iff_spec (bs : Bytes) (tx : Tx) (n : Nat) :
+    decodeTx bs = some (tx, n) ↔ tx.WF ∧ n = (encodeTx tx).length ∧ ∃ rest, bs = encodeTx tx ++ rest := by
+  constructor
+  · intro h
+    have hw := decode_wf bs tx n h
+    have hre := decode_reencode bs tx n h
+    have hn : n = (encodeTx tx).length := by
+      obtain ⟨_, _, h1, _, h2⟩ := (decode_total bs).resolve_left (by simp [h])
+      rw [h] at h1
+      simp only [Option.some.injEq, Prod.mk.injEq] at h1
+      obtain ⟨rfl, rfl⟩ := h1
+      rw [hre]; simp; omega
+    refine ⟨hw, hn, bs.drop n, ?_⟩
+    rw [hre]; exact (List.take_append_drop _ bs).symm
+  · rintro ⟨hw, rfl, rest, rfl⟩
+    exact encode_decode tx hw rest
+
+/-- **Unknown optional data is refused** (Bitcoin: an empty input vector is followed by a flags byte; only 00 and
+    01 are defined). Every byte string `version · 00 · x · …` with `x ∉ {00, 01}` is refused by `btc.NewTx`. -/
+theorem unknown_optional_data_refused (ver rest : Bytes) (x : UInt8) (hv : ver.length = 4) (h0 : x ≠ 0) (h1 : x ≠ 1) :
+    decodeTx (ver ++ 0 :: x :: rest) = none := by
+  cases h : decodeTx (ver ++ 0 :: x :: rest) with
+  | none => rfl
+  | some p =>
+    exfalso
+    obtain ⟨tx, n⟩ := p
+    obtain ⟨hw, _, r, hb⟩ := (accepts_iff_spec _ tx n).1 h
+    have hvl : (leBytes 4 tx.version).length = ver.length := by rw [leBytes_length, hv]
+    cases hwit : tx.witness with
+    | some w =>
+      simp only [encodeTx, hwit, List.append_assoc] at hb
+      have := (List.append_inj hb hvl.symm).2
+      simp only [List.cons_append, List.cons.injEq] at this
+      exact h1 this.2.1
+    | none =>
+      simp only [encodeTx, hwit, encodeTxNoWit, encodeBody, List.append_assoc] at hb
+      have hb2 := (List.append_inj hb hvl.symm).2
+      by_cases hin : tx.ins = []
+      · have hout := hw.ins_ne hin
+        have hp0 : putULe 0 = [0] := by decide
+        simp only [hin, hout, List.length_nil, hp0, encodeList, List.nil_append, List.cons_append, List.cons.injEq] at hb2
+        exact h0 hb2.2.1
+      · have hne : tx.ins.length ≠ 0 := fun hh => hin (List.length_eq_zero_iff.mp hh)
+        obtain ⟨y, tl, hput, hy0⟩ := putULe_head_ne_zero tx.ins.length hne hw.nins
+        rw [hput] at hb2
+        simp only [List.cons_append, List.cons.injEq] at hb2
+        exact hy0 hb2.1.symm
+
+example : ∃ (ver : Bytes) (x : UInt8), ver.length = 4 ∧ x ≠ 0 ∧ x ≠ 1 := ⟨[1,0,0,0], 2, by decide, by decide, by decide⟩
+
+/-- **Pre-fix counterexample, unknown optional data (confirmed on the real code before the `fix:` commit).**
+    Without the rule, `01000000 00 02 <out> <out> 00000000` is read as a legacy transaction with no inputs and two
+    outputs (Bitcoin: "Unknown transaction optional data"); the decoder as it is now refuses it. -/
+theorem prefix_unknown_optional_data_counterexample :
+    (decodeTxWith vlenWire false witZeroInputs).isSome = true ∧ decodeTx witZeroInputs = none := by
+  decide +kernel
+
+/-- **txSize_spec.** `btc.TxSize` returns exactly the number of bytes the decoder without the two non-length rules
+    (superfluous witness, unknown optional data — TxSize has neither) consumes, 0 when that decoder fails; it never
+    exceeds the buffer. -/
+theorem txSize_spec (bs : Bytes) :
+    txSize bs = ((decodeTxWith vlenWire false bs).map (·.consumed)).getD 0 ∧ txSize bs ≤ bs.length := by
+  refine ⟨txSize_eq bs, ?_⟩
+  rw [txSize_eq]
+  cases h : decodeTxWith vlenWire false bs with
+  | none => simp
+  | some d =>
+    simp only [Option.map_some, Option.getD_some]
+    -- consumed = |bs| − |rest|
+    have : ∃ r : Nat, d.consumed = bs.length - r := by
+      unfold decodeTxWith at h
+      repeat' split at h
+      all_goals first
+        | (simp at h; done)
+        | (simp only [Option.some.injEq] at h; subst h; exact ⟨_, rfl⟩)
+    obtain ⟨r, hr⟩ := this
+    omega
+
+/-- **txSize_eq_consumed.** On every input `btc.NewTx` accepts, `btc.TxSize` equals the bytes consumed. -/
+theorem txSize_eq_consumed (bs : Bytes) (tx : Tx) (n : Nat) (h : decodeTx bs = some (tx, n)) : txSize bs = n := by
+  unfold decodeTx at h
+  cases hd : decodeTxFull bs with
+  | none => simp [hd] at h
+  | some d =>
+    simp only [hd, Option.map_some, Option.some.injEq, Prod.mk.injEq] at h
+    obtain ⟨_, rfl⟩ := h
+    rw [txSize_eq, decodeTxWith_strict_imp hd]
+    rfl
+
+/-- **alloc_bounded.** For EVERY byte string — accepted, refused, cut off anywhere, with any counts — the bytes
+    `btc.NewTx` requests from the allocator (`Wire.allocTx`: `new(Tx)`, the pointer slices `make([]*TxIn, n)` /
+    `make([]*TxOut, n)`, each `new(TxIn)`/`new(TxOut)`, each script, the witness slice headers and items, counted
+    up to the statement at which decoding stops) are at most `sizeof(Tx) + (sizeof(TxIn) + sizeof(TxOut) + 67)·|bs|`. -/
+theorem alloc_bounded (K : AllocK) (bs : Bytes) :
+    allocTx K bs ≤ K.tx + (K.txIn + K.txOut + 67) * bs.length :=
+  allocTx_le K bs
+
+/-- **block_txids_spec.** For a block below 4 GiB: every transaction `BuildTxList` builds carries as `Hash` the
+    BIP141 txid of the decoded transaction and as `Raw` its BIP144 serialisation (all but the first also its wtxid);
+    when the build succeeds, as many were built as the count says and they are exactly the serialisations that
+    follow the count in the block, in order — `Txs[i].Hash` is the txid of the i-th transaction of the block. -/
+theorem block_txids_spec (H : Bytes → Bytes) (raw : Bytes) (hl : raw.length < 2^32) :
+    let r := decodeBlock H raw
+    r.txs.map (·.ids.hash) = r.txs.map (fun t => txid H t.tx) ∧
+    r.txs.map (·.raw) = r.txs.map (fun t => encodeTx t.tx) ∧
+    (r.txs.drop 1).map (·.ids.wtxid) = (r.txs.drop 1).map (fun t => wtxid H t.tx) ∧
+    (r.err = none → r.txs.length = r.txCount ∧ r.txCount ≠ 0 ∧
+      ∃ rest, raw.drop 80 = putULe r.txCount ++ ((r.txs.map (fun t => encodeTx t.tx)).flatten ++ rest)) := by
+  intro r
+  obtain ⟨l, g, htx, hok⟩ := decodeBlock_txs H raw hl
+  have hr : r.txs = mkBlockTxs H true l := htx
+  have ⟨f1, f2⟩ := mkBlockTxs_fields H l true
+  have hraw : l.map (·.2) = l.map (fun p => encodeTx p.1.tx) :=
+    List.map_congr_left (fun p hp => (g p hp).1)
+  have htxmap : ∀ (f : Tx → Bytes), r.txs.map (fun t => f t.tx) = l.map (fun p => f p.1.tx) := by
+    intro f
+    have := congrArg (List.map f) f1
+    rw [hr]
+    simpa [List.map_map, Function.comp_def] using this
+  refine ⟨?_, ?_, ?_, ?_⟩
+  · rw [htxmap (txid H), hr]; exact mkBlockTxs_hash H l true g
+  · rw [htxmap encodeTx, hr, f2, hraw]
+  · rw [hr]
+    cases l with
+    | nil => simp [mkBlockTxs]
+    | cons p l' =>
+      simp only [mkBlockTxs, List.drop_succ_cons, List.drop_zero]
+      have ⟨f1', _⟩ := mkBlockTxs_fields H l' false
+      rw [mkBlockTxs_wtxid H l' (fun q hq => g q (by simp [hq]))]
+      have := congrArg (List.map (wtxid H)) f1'
+      simpa [List.map_map, Function.comp_def] using this.symm
+  · intro he
+    obtain ⟨h1, h2, rest, h3⟩ := hok he
+    refine ⟨by rw [hr, mkBlockTxs_length]; exact h1, h2, rest, ?_⟩
+    rw [htxmap encodeTx, ← hraw]; exact h3
+
+/-- **merkle_root_spec.** For a block below 4 GiB, `Block.MerkleRootMatch()` after `NewBlock` + `BuildTxList` is
+    true exactly when the build succeeded, the header's Merkle-root field (`Raw[36:68]`) is the root of the
+    pairwise-hash tree over the txids (BIP141) of the block's decoded transactions, and no level of that tree has
+    two equal nodes hashed together (CVE-2012-2459; C05's `calcMerkle_spec`). -/
+theorem merkle_root_spec (H : Bytes → Bytes) (raw : Bytes) (hl : raw.length < 2^32) :
+    let r := decodeBlock H raw
+    let ids := r.txs.map (fun t => txid H t.tx)
+    merkleRootMatch H raw = true ↔
+      r.err = none ∧ (Spec.Merkle.root H ids.length ids).head? = some (headerMerkleRoot raw) ∧
+      ¬ ∃ lv ∈ Spec.Merkle.levels H ids.length ids, ∃ j, 2 * j + 1 < lv.length ∧ lv[2 * j]? = lv[2 * j + 1]? := by
+  intro r ids
+  have hids : r.txs.map (·.ids.hash) = ids := (block_txids_spec H raw hl).1
+  have herr := decodeBlock_err_none_iff H raw
+  unfold merkleRootMatch getMerkle
+  simp only
+  by_cases hc : (decodeBlock H raw).txCount = 0 ∨ (decodeBlock H raw).txs.length ≠ (decodeBlock H raw).txCount
+  · simp only [hc, ↓reduceIte, Bool.false_eq_true, false_iff]
+    rintro ⟨he, _⟩
+    have := herr.1 he
+    rcases hc with h | h
+    · exact this.1 h
+    · exact h this.2
+  · simp only [hc, ↓reduceIte]
+    have hc' : (decodeBlock H raw).txCount ≠ 0 ∧ (decodeBlock H raw).txs.length = (decodeBlock H raw).txCount := by
+      constructor
+      · intro h; exact hc (Or.inl h)
+      · exact Classical.byContradiction (fun h => hc (Or.inr h))
+    have he : r.err = none := herr.2 hc'
+    have hne : ids ≠ [] := by
+      intro h
+      have : ids.length = 0 := by rw [h]; rfl
+      simp only [ids, List.length_map] at this
+      exact hc'.1 (by rw [← hc'.2]; exact this)
+    rw [hids]
+    have hs := Proofs.C05.calcMerkle_isSome H ids hne
+    cases hm : BlockCheck.calcMerkle H ids with
+    | none => simp [hm] at hs
+    | some p =>
+      obtain ⟨root, mutated⟩ := p
+      obtain ⟨s1, s2⟩ := Proofs.C05.calcMerkle_spec H ids root mutated hm
+      simp only [Bool.and_eq_true, Bool.not_eq_eq_eq_not, Bool.not_true, beq_iff_eq]
+      constructor
+      · rintro ⟨hmu, hroot⟩
+        refine ⟨he, by rw [s2, hroot], ?_⟩
+        intro hex
+        have := s1.2 hex
+        rw [hmu] at this; simp at this
+      · rintro ⟨_, hroot, hno⟩
+        constructor
+        · cases hmv : mutated with
+          | false => rfl
+          | true => exact absurd (s1.1 hmv) hno
+        · rw [s2] at hroot; simpa using hroot
+
+example : merkleRootMatch (fun x => x.take 32)
+    (List.replicate 36 (0 : UInt8) ++ witCanonical.take 32 ++ List.replicate 12 (0 : UInt8) ++ [1] ++ witCanonical) = true := by
+  decide +kernel
+
+-- OPEN: alloc_bounded_runtime — the bound is about the bytes REQUESTED (`Wire.allocTx`, proved above for every input);
+--   what the Go runtime adds (size-class rounding ≤ 2×, the panic value of a failed slice expression, `println`) is
+--   not modelled: the harness checks `allocTx ≤ measured ≤ 2·allocTx + 2048` (runtime.MemStats) on every exactly
+--   measured case and a 3 GiB address-space limit in a child process on all of them. Block level
+--   (`make([]*Tx, TxCount)` + per-transaction NewTx) is guarded by the same `vlenWire` bound; no Lean theorem.
+-- OPEN: accepts_iff_core — `accepts_iff_spec` characterises the accept set as {serialisations of WF transactions};
+--   that `Tx.WF` + BIP144 serialisation IS Bitcoin Core's accept set (up to Core's MAX_SIZE = 32 MiB limit on a single
+--   CompactSize, which gocoin replaces by "≤ bytes left") is established by the harness's independent Core-style
+--   reference parser on every case, not by a Lean model of Core's UnserializeTransaction.
 
 end GocoinV.Props.C09
